@@ -13,14 +13,14 @@ Proof.
   - induction l as [|a l IHl]; [reflexivity|]. rewrite IH. exact IHl.
 Qed.
 
-Lemma out_ok_refl (o : out Z) : out_ok o (sx_out o) = true.
+Lemma out_ok_refl (o : out elem) : out_ok o (sx_out o) = true.
 Proof.
   destruct o as [sh cells|sh m|l|b| |e]; try apply sx_eqb_refl.
   destruct e; try apply sx_eqb_refl. reflexivity.
 Qed.
 
-Lemma out_ok_agree m (l1 l2 : list (out Z)) :
-  Forall2 (out_agree Z OtherError m) l1 l2 -> forallb2 out_ok l1 (map sx_out l2) = true.
+Lemma out_ok_agree m (l1 l2 : list (out elem)) :
+  Forall2 (out_agree elem OtherError m) l1 l2 -> forallb2 out_ok l1 (map sx_out l2) = true.
 Proof.
   induction 1 as [|o1 o2 l1 l2 Ho _ IH]; [reflexivity|]. cbn [map forallb2]. rewrite IH, andb_true_r.
   destruct Ho as [->|[-> ->]]; [apply out_ok_refl|reflexivity].
@@ -30,10 +30,10 @@ Theorem spec_ok_run : forall c, spec_ok c (run c) = true.
 Proof.
   intros [b ext int mask ops|a b c|n|ls|sh]; try reflexivity.
   cbn [spec_ok run]. set (g := mk_geom ext int mask).
-  destruct (geom_ok g && forallb (valid_op Z g) ops) eqn:Hv; [|reflexivity]. cbn [negb].
+  destruct (geom_ok g && forallb (valid_op elem g) ops) eqn:Hv; [|reflexivity]. cbn [negb].
   apply andb_true_iff in Hv as [Hg Hv].
   unfold ref_outs. destruct b; cbn [run_store].
-  - rewrite (file_refines_seq Z g Hg ops Hv). apply (out_ok_agree FileNotFoundError). apply run_miss.
-  - rewrite (dict_refines_seq Z g Hg ops Hv). apply (out_ok_agree KeyError). apply run_miss.
-  - rewrite (dict_refines_seq Z g Hg ops Hv). apply (out_ok_agree KeyError). apply run_miss.
+  - rewrite (file_refines_seq elem g Hg ops Hv). apply (out_ok_agree FileNotFoundError). apply run_miss.
+  - rewrite (dict_refines_seq elem g Hg ops Hv). apply (out_ok_agree KeyError). apply run_miss.
+  - rewrite (dict_refines_seq elem g Hg ops Hv). apply (out_ok_agree KeyError). apply run_miss.
 Qed.
